@@ -38,7 +38,8 @@ CHECKS = {
              "real ESF and TMC classes run on UNRESTRICTED symbolic x, Q2, x_min: z3 proves result => inside the domain and "
              "rejection (TMC=0) => outside, on every path. A2: the real compute_local over PTODIS x PTO(evolution) x switches. D: the NaN/inf "
              "scrubber over the valid observable names. Rejections count only if raised by an explicit `raise` (AST check). E: CrossHair: "
-             "ObservableName is total on short strings. Thorough tier covers the complete lattice product.",
+             "ObservableName is total on short strings. Thorough tier covers the complete lattice product."
+             " A point to which no channel contributes still carries every order key; every path of the kinematics clause is also executed on plain floats at its own point; parts that take int()/float() of a symbolic quantity are reported as undecided, not skipped.",
         note=TRUST + "; CrossHair 0.0.110 (strings <= 4 chars); EW weights concrete in part A; NaNs produced inside external libraries "
              "are outside (the scrubber's totality is what is checked); quick tier takes a fixed 3% hash-selected subset of the lattice.",
         technique="symbolic execution of the real dispatch/validation code (z3 proxies, path exploration) over the enumerated lattice + CrossHair",
@@ -57,7 +58,8 @@ CHECKS = {
              "uninitialised value). No such event may be reachable. A finding is replayed against the MACHINE CODE: the kernel is "
              "compiled with the JIT enabled in a sub-process and compared with its py_func at the witness arguments. NOT claimed: "
              "agreement of the LLVM code with the interpreter beyond the modelled classes (code generation, rounding) and JIT-on = JIT-off "
-             "for whole runs.",
+             "for whole runs."
+             " Also flagged: Python lists, 0-d / read-only / non-float64 arrays at f8[:] parameters and complex-typed return expressions of f8 kernels (static typing).",
         note="Python semantics of the kernels (NUMBA_DISABLE_JIT=1); the numba/LLVM artefact itself is analysed only in replays; the list of "
              "modelled divergence classes (engine/nbmodel.py) is the trust base of clause (2); external libraries as atoms.",
         technique="symbolic execution of the (AST-instrumented) kernels with bounds-recording argument vectors and typed-semantics hooks "
@@ -71,7 +73,8 @@ CHECKS = {
              "None/0/1/2 points, 1..3 order keys, nf None/int) x format chains (yaml, tar and all two-step cycles) is enumerated "
              "and every field of the loaded object must be the same token as in the original; the dumped object must be "
              "unchanged. Failures are replayed with the real libraries on disk."
-             " Outputs holding both spellings of one observable (F2 and F2_total) are included, and loading ANOTHER output afterwards must leave an already loaded object unchanged.",
+             " Outputs holding both spellings of one observable (F2 and F2_total) are included, and loading ANOTHER output afterwards must leave an already loaded object unchanged."
+             " Narrowing dtype casts on the way to disk are uninterpreted functions of the token (no longer provably lossless); cross sections whose points all sit at y = 0.0 are included.",
         note="proxy tokens (z3 terms compared structurally), the I/O contracts listed in the evidence (byte-level fidelity of PyYAML "
              "and NumPy is assumed), Python semantics; cards containing non-YAML types are outside.",
         technique="bounded symbolic execution of the real (de)serialisation code on symbolic tokens with I/O contracts, exhaustive structure lattice",
@@ -97,7 +100,8 @@ CHECKS = {
              "is a solver-feasible path of sorted(); output[name][i] is the result of elements[i], unplanned observables do not "
              "leak. (3) compute_raw / n3lo.interpolator memos are transparent, fact_matrices does not modify the operator memo (symbolic 2x2 "
              "operators) and ren_coeffs(nf) is independent of the nf values asked before. (4) ESF.get_result returns a private deep copy."
-             " The scale-variation tensors a compute_local emits for nf from a manager that has served other nf before equal those from a fresh manager.",
+             " The scale-variation tensors a compute_local emits for nf from a manager that has served other nf before equal those from a fresh manager."
+             " A point listed twice keeps both slots; a from_dict-built couplings object answers independently of earlier requests; the user's scale-variation switches on the shared manager are not state.",
         note=TRUST + "; bounded history (<= 2 earlier requests) instead of an arbitrary pre-state: the cache key has no other state, "
              "one earlier entry suffices for a collision; bit-for-bit float equality is outside (reals).",
         technique="symbolic execution of the real cache/ordering code with symbolic dict keys (z3 decisions) + path exploration",
@@ -125,7 +129,8 @@ CHECKS = {
              "get_result run on cards with symbolic masses/thresholds/kinematics over all feasible paths: a deep identity snapshot "
              "of the cards is unchanged after construction, repeated construction and get_result; the output echoes the given "
              "cards, grid, pids and projectilePID."
-             " Cards that omit one optional key (one cell per top-level key whose omission yadism accepts) and cards whose points are listed in non-monotonic Q2 order are included.",
+             " Cards that omit one optional key (one cell per top-level key whose omission yadism accepts) and cards whose points are listed in non-monotonic Q2 order are included."
+             " Every observable has its own points, one listed twice, bare kinds and both spellings of one observable are requested side by side, the grid and the CKM matrix also come as numpy arrays.",
         note=TRUST + "; CrossHair 0.0.110; floats concrete in the CrossHair harnesses; numerics stubbed to zeros in the runner part; "
              "mutation by eko/rich internals outside.",
         technique="CrossHair symbolic execution of compatibility.update + symbolic execution of the real Runner with identity snapshots",
@@ -218,7 +223,8 @@ CHECKS = {
              "sum_p w'_p f_p = sum_p w_p f'_p for ALL real Z, A != 0, weights and formal PDFs; the real Combiner for a symbolic "
              "target is proved equal to the oracle-rotated proton run on the configuration lattice; the named-target table is "
              "compared with the documented (Z,A), unknown names must raise ValueError."
-             " Explicit {Z, A} targets (non-integer values) must pass through update_target unchanged.",
+             " Explicit {Z, A} targets (non-integer values) must pass through update_target unchanged."
+             " Cells with independent PTODIS and PTO(evolution) cover asymptotic towers of every length; the rotation itself runs under the explorer (shortcuts and tolerances on Z, A, weights are paths); explicit Z = 0 targets included.",
         note=TRUST + "; named-target table is a finite concrete comparison, not symbolic.",
         technique="symbolic execution of apply_isospin/Combiner (z3 proxies) + z3 NRA equality with the rotation oracle",
         design="§4 C12",
@@ -241,7 +247,8 @@ CHECKS = {
              "weight and the LO operator weight per parton (sum over kernels of weight x LO delta x chi/x) equals an "
              "independent PDG/CKM oracle; the discrete lattice projectile x process x nf x kind x CKM mask is enumerated. "
              "Unit tests pin a few numbers; here a sign/charge/propagator/CKM slip anywhere in parameter space is a sat model."
-             " The LO operator in the massive-scheme limit FFN0 (through the real Combiner; light quarks plus the tagged heavy quark as incoming partons) is compared with the same parton model.",
+             " The LO operator in the massive-scheme limit FFN0 (through the real Combiner; light quarks plus the tagged heavy quark as incoming partons) is compared with the same parton model."
+             " The same LO limit is checked for the FONLL building block FONLL-FFN0.",
         note=TRUST + "; oracle yv/refs/ew.py written from PDG (tree-level eta_gammaZ) and docs/theory/fns.rst; for neutrino NC "
              "beams both helicity sign conventions are accepted; heavy-CC FL LO prefactor is outside.",
         technique="symbolic execution of the real weight code (z3 proxies) + z3 NRA equality with an independent PDG oracle",
